@@ -10,15 +10,37 @@ from vf.hlib import with_tc
 DIV = "-----"
 PR = ["column", "first_row"]
 
-def render_body2(n, bounds, vals, init, new_page, pr):
-    """real _render_body, two page_by levels; vals[i] = dict of the boundary's group_values (dividers already
-    filtered out, as _detect_group_boundaries does)"""
+LEVELS = ["g", "h", "k"]
+
+def render_bodyL(n, bounds, vals, init, new_page, pr, nlev=2):
+    """real _render_body with nlev page_by levels; vals[i] = dict of the boundary's group_values (dividers already
+    filtered out, as _detect_group_boundaries does); init = group_values of the page's first row"""
     r = token_renderer()
-    doc = NS(rtf_body=NS(new_page=new_page, pageby_row=PR[pr], page_by=["g", "h"]), df=None, rtf_page=NS(col_width=6.0))
+    doc = NS(rtf_body=NS(new_page=new_page, pageby_row=PR[pr], page_by=LEVELS[:nlev]), df=None, rtf_page=NS(col_width=6.0))
     gb = [{"absolute_row": b, "page_relative_row": b, "group_values": v} for b, v in zip(bounds, vals)]
     page = NS(final_body_attrs=row_attrs(), table_attrs=None, data=FakeFrame({"v": ["r%d" % i for i in range(n)]}),
               col_widths=[1.0], group_boundaries=gb or None, pageby_header_info={"group_values": dict(init)})
     return PageRenderer._render_body(r, doc, page)
+
+def expected_body(n, bounds, vals, init, nlev):
+    """the statement: at a boundary, the value of level j is rendered iff the group key differs from the PREVIOUS
+    GROUP's key at level j or at an outer level ('-----' levels count as a key value but render nothing)"""
+    exp = []
+    state = {l: init.get(l, DIV) for l in LEVELS[:nlev]}
+    prev = 0
+    for b, v in zip(bounds, vals):
+        exp += [("ROW", "r%d" % i, i) for i in range(prev, b)]
+        force = False
+        for lvl in LEVELS[:nlev]:
+            cur = v.get(lvl, DIV)
+            if cur != state[lvl] or force:
+                force = True
+                if cur != DIV:
+                    exp.append(("SPAN", cur, 0))
+            state[lvl] = cur
+        prev = b
+    exp += [("ROW", "r%d" % i, i) for i in range(prev, n)]
+    return exp
 '''
 
 
@@ -46,51 +68,42 @@ def build(tier, seed):
             stubs=["data frame -> FakeFrame"],
             bounds="%d page_by level(s), 2 rows, each key a symbolic one-character string or the '-----' divider, start row symbolic" % levels,
             what="heading values are those of the page's first row, '-----' dropped, page_by order preserved; empty past the end"))
-    # O2: hierarchical re-rendering at in-page boundaries
-    for n in ((2, 3) if quick else (2, 3, 4)):
-        for r in range(1, min(n, 3)):
-            for bounds in itertools.combinations(range(1, n), r):
-                sig = "a0: str, b0: str, " + ", ".join("a%d: str, b%d: str, d%d: bool" % (i, i, i) for i in range(1, r + 1)) + ", new_page: bool, pr: int"
-                pre = ["len(a%d) == 1 and len(b%d) == 1" % (i, i) for i in range(r + 1)] + ["0 <= pr <= 1"]
-                vals = "[" + ", ".join("({'g': a%d} if d%d else {'g': a%d, 'h': b%d})" % (i, i, i, i) for i in range(1, r + 1)) + "]"
-                obs.append(Ob(
-                    oid="O2.hier.n%d.b%s" % (n, "_".join(map(str, bounds))), sig=sig, pre=pre, header=HDR5, timeout=T,
-                    body=r'''
+    # O2: hierarchical re-rendering at in-page boundaries (2 and 3 levels)
+    shapes = [(2, 2, (1,)), (2, 3, (1,)), (2, 3, (2,)), (2, 3, (1, 2)), (3, 2, (1,)), (3, 3, (2,))]
+    if not quick:
+        shapes += [(2, 4, (1, 3)), (2, 4, (1, 2, 3)), (3, 3, (1,)), (3, 3, (1, 2)), (3, 4, (1, 3))]
+    for nlev, n, bounds in shapes:
+        r = len(bounds)
+        L = "abc"[:nlev]
+        sig = ", ".join("%s0: str" % c for c in L) + "".join(
+            ", " + ", ".join("%s%d: str" % (c, i) for c in L) + "".join(", d%s%d: bool" % (c, i) for c in L[1:])
+            for i in range(1, r + 1)) + "".join(", d%s0: bool" % c for c in L[1:]) + ", new_page: bool, pr: int"
+        pre = ["len(%s%d) == 1" % (c, i) for c in L for i in range(r + 1)] + ["0 <= pr <= 1"]
+        def gv(i):
+            items = ["'g': a%d" % i]
+            return "dict([('g', a%d)]" % i + "".join(
+                " + ([] if d%s%d else [(%r, %s%d)])" % (c, i, "ghk"[j + 1], c, i) for j, c in enumerate(L[1:])) + ")"
+        vals = "[" + ", ".join(gv(i) for i in range(1, r + 1)) + "]"
+        obs.append(Ob(
+            oid="O2.hier.l%d.n%d.b%s" % (nlev, n, "_".join(map(str, bounds))), sig=sig, pre=pre, header=HDR5, timeout=T,
+            body=r'''
     bounds = %r
     vals = %s
-    out = render_body2(%d, bounds, vals, [("g", a0), ("h", b0)], new_page, pr)
+    init = %s
+    out = render_bodyL(%d, bounds, vals, init, new_page, pr, %d)
     if new_page and pr == 0:
         # page_by kept as a column: no spanning rows at all, body rendered in one piece
         return out == [("ROW", "r%%d" %% i, i) for i in range(%d)]
-    exp = []
-    state = {"g": a0, "h": b0}
-    prev = 0
-    for b, v in zip(bounds, vals):
-        exp += [("ROW", "r%%d" %% i, i) for i in range(prev, b)]
-        force = False
-        for lvl in ("g", "h"):
-            if lvl not in v:
-                continue
-            if v[lvl] != state.get(lvl) or force:
-                force = True
-                exp.append(("SPAN", v[lvl], 0))
-        state.update(v)
-        prev = b
-    exp += [("ROW", "r%%d" %% i, i) for i in range(prev, %d)]
-    if out != exp:
+    if out != expected_body(%d, bounds, vals, init, %d):
         return False
-    # a heading is always directly followed by an inner heading or a data row
-    for i, t in enumerate(out):
-        if t[0] == "SPAN" and (i + 1 >= len(out)):
-            return False
-    return True
-''' % (list(bounds), vals, n, n, n),
-                    funcs=["rtflite.encoding.renderer:PageRenderer._render_body"],
-                    stubs=["page frame -> FakeFrame", "_encode / encode_spanning_row -> recorders"],
-                    bounds="page of %d rows, boundaries at %s, two page_by levels with symbolic one-character values, inner level "
-                           "optionally a divider, new_page/pageby_row symbolic" % (n, list(bounds)),
-                    what="at a boundary level j is emitted iff level j or a higher level changed w.r.t. the running state, outer "
-                         "before inner, dividers skipped, and each heading is followed by a heading or a data row"))
+    return not (out and out[-1][0] == "SPAN")
+''' % (list(bounds), vals, gv(0), n, nlev, n, n, nlev),
+            funcs=["rtflite.encoding.renderer:PageRenderer._render_body"],
+            stubs=["page frame -> FakeFrame", "_encode / encode_spanning_row -> recorders"],
+            bounds="page of %d rows, boundaries at %s, %d page_by levels with symbolic one-character values, inner levels "
+                   "optionally '-----' dividers (also on the page's first row), new_page/pageby_row symbolic" % (n, list(bounds), nlev),
+            what="at a boundary the value of level j is rendered iff the group key differs from the previous group's key at "
+                 "level j or an outer level, outer before inner, dividers render nothing, no heading ends the page"))
     # O3: headings at the top of the page (render step 7)
     obs.append(Ob(
         oid="O3.top_headings", sig="a: str, b: str, na: bool, nb: bool, new_page: bool, pr: int, has_info: bool",
@@ -185,6 +198,39 @@ def build(tier, seed):
             funcs=F_META, stubs=["data frame -> FakeFrame", "get_string_width -> constant"],
             bounds="%d rows, symbolic one-character subline keys, nrow/reserved unbounded" % n,
             what="a change of subline_by value always starts a new page, so each page carries one subline group"))
+    # O6: paginate() attaches the heading values of the page's first row and the in-page boundaries to every page
+    for which in (1, 2):
+        obs.append(Ob(
+            oid="O6.paginate_headers.%s" % ["", "page_by", "subline"][which],
+            sig="k0: str, k1: str, k2: str, pageby_header: bool, new_page: bool, p1: bool, p2: bool",
+            pre=["len(k0) == 1 and len(k1) == 1 and len(k2) == 1"], header=HDR5 + "from vf.h_paginate import run_paginate\n", timeout=T,
+            body=r'''
+    K = [k0, k1, k2]
+    por = [1, 2 if p1 else 1]
+    por.append(por[-1] + (1 if p2 else 0))
+    out = run_paginate(%d, por, pageby_header, new_page, keys={"g": K, "s": ["S0", "S1", "S2"]})
+    if len(out) != por[-1]:
+        return False
+    for i, pg in enumerate(out):
+        rows = [j for j, p in enumerate(por) if p == i + 1]
+        info = pg.pageby_header_info
+        if not info or list(info["group_values"].items()) != [("g", K[rows[0]])]:
+            return False
+        exp = [(j, j - rows[0], K[j]) for j in rows[1:] if K[j] != K[j - 1]]
+        got = [(b["absolute_row"], b["page_relative_row"], b["group_values"].get("g")) for b in (pg.group_boundaries or [])]
+        if got != exp:
+            return False
+        if %d == 2 and (not pg.subline_header or list(pg.subline_header["group_values"].items()) != [("s", "S%%d" %% rows[0])]):
+            return False
+    return True
+''' % (which, which),
+            funcs=["rtflite.pagination.strategies.grouping:PageByStrategy.paginate", "rtflite.pagination.strategies.grouping:SublineStrategy.paginate",
+                   "rtflite.pagination.strategies.grouping:PageByStrategy._get_group_headers",
+                   "rtflite.pagination.strategies.grouping:PageByStrategy._detect_group_boundaries"],
+            stubs=["polars -> vf.minipl model", "calculate_row_metadata -> given page assignment", "PageContext -> recording namespace"],
+            bounds="3 rows on 1..3 pages (symbolic break positions), symbolic one-character page_by keys, pageby_header/new_page symbolic",
+            what="every page (first or continuation, whatever pageby_header) carries the heading values of its first row, the "
+                 "in-page group boundaries of its own rows, and with subline_by the subline heading of its first row"))
     meta = {
         "explanation": "Group headings are decided on the real functions with symbolic group values: _get_group_headers, the "
                        "hierarchical loop of _render_body (expected token sequence computed from the statement), render() step 7, "
